@@ -1,12 +1,13 @@
-\* C13 valid scope (thorough): whole messages, body streams, writers; every cut set of at most 3 cuts + one byte per recv
+\* C13 valid scope (thorough): whole messages, body streams, writers; every cut set of at most 2 cuts + one byte per recv
 SPECIFICATION Spec
 CONSTANTS
   MaxTransfer = 4096
   ReservedIndex = 1024
   LineBuf = 4096
   KF = {}
-  Msgs <- ValidThorough
-  MaxCuts = 3
+  Scope = "valid-thorough"
+  Msgs <- ScopeMsgs
+  MaxCuts = 2
   Bytewise = TRUE
   ReadSizes = {1, 2, 5, 1000000}
   Cap = 65535
